@@ -16,7 +16,9 @@ RULE = ("all 113x113 ordered pairs of predefined units x {*, /} with operand "
         "kinds {quantity, unit, number} rotated (thorough: all kinds), powers "
         "-3..3 of every unit, plus seeded synthetic worlds (base/derived "
         "types with and without reference unit and quantum, alias / "
-        "term-defined / derived units) x random operations; non-trivial = "
+        "term-defined / derived units) x random operations, and two-step "
+        "cascades (a op b) op c, c op (a op b), (a op b) ** n whose inner "
+        "result is exact; non-trivial = "
         "both operands carry a unit or the exponent is not 0/1; distinct by "
         "(world, operation, operands)")
 ANCHORS = ("Unit.__mul__", "Unit.__truediv__", "Unit.__pow__",
@@ -121,6 +123,20 @@ def predefined_cases(chk, rng, tier):
                 cases.append(op_case(chk, w, rng, "**", s, s, (k, "n"),
                                      "predefined", F(3, 2), n))
     chk.exhaustive["predefined units x powers -3..3"] = True
+    # cascades: a result as an operand of the next operation
+    for i in range(1500 if tier == "quick" else 20000):
+        o = rand_cascade(rng, w, "r")
+        if o is None:
+            continue
+        st, pred, desc, ul, kinds, op = o
+
+        def judge(obs, rec, case, st=st, pred=pred, desc=desc, kinds=kinds,
+                  op=op):
+            chk.count("cascades (a result as an operand)")
+            chk.count("cascade outcome|" + pred["kind"])
+            judge_op(chk, w, pred, obs.get("r") if obs else None, desc, [st],
+                     False, "predefined", kinds, op)
+        cases.append(Case([st], judge))
     return cases
 
 
@@ -148,6 +164,97 @@ def rand_op(rng, w, key):
             "(%s) %s (%s)" % (describe_operand(m1), op,
                               describe_operand(m2)),
             kinds == "uu", kinds, op)
+
+
+def _exact_type(w, tname):
+    """no unit of the type rounds what it is given"""
+    return all(w.quantum_of(u.sym) is None for u in w.units_of(tname))
+
+
+def rand_cascade(rng, w, key, tries=30):
+    """A two-operation expression whose first result is an operand of the
+    second: (a op1 b) op2 c, c op2 (a op1 b), (a op1 b) ** n.  The inner
+    result must be a plain number or a quantity of a type that has a reference
+    unit and no quantum -- then its value is exact whatever unit the library
+    picks for it, and the outer prediction follows from value and signature
+    alone.  -> the same tuple as rand_op, or None"""
+    from ..models.world import vmul, vpow
+    syms = list(w.units)
+    for _ in range(tries):
+        s1, s2 = rng.choice(syms), rng.choice(syms)
+        k1, k2 = rng.choice(["qq", "qq", "qu", "uq"])
+        op1 = rng.choice("*/")
+        e1, m1 = operand(rng, w, s1, k1)
+        e2, m2 = operand(rng, w, s2, k2)
+        p1 = w.predict_mul(op1, m1, m2)
+        if p1["kind"] == "number":
+            inner_m = ("n", p1["value"])
+        elif p1["kind"] == "qty" and _exact_type(w, p1["type"]) and \
+                all(w.quantum_of(m[2]) is None for m in (m1, m2)
+                    if m[0] == "q"):
+            inner_m = None
+        else:
+            continue
+        inner = OP(op1, e1, e2)
+        d1 = "((%s) %s (%s))" % (describe_operand(m1), op1,
+                                 describe_operand(m2))
+        if inner_m is None and rng.random() < 0.2:
+            n = rng.choice([-2, -1, 2, 3])
+            if p1["value"] == 0 and n < 0:
+                continue
+            pred = w.predict_value(p1["value"] ** n, vpow(p1["vec"], n))
+            return ({"k": key, "e": OP("**", inner, ["i", n])}, pred,
+                    "%s ** %d" % (d1, n), False, ("q", "n"), "**")
+        k3 = rng.choice("qqu")
+        op2 = rng.choice("*/")
+        inner_first = rng.random() < 0.6
+        s3 = rng.choice(syms)
+        if inner_m is None and rng.random() < 0.7:
+            # prefer a third operand that leads somewhere
+            for s in rng.sample(syms, min(len(syms), 40)):
+                v3 = w.den(s)[1]
+                sg = (1 if op2 == "*" else -1)
+                vec2 = vmul(p1["vec"], v3, sg) if inner_first else \
+                    vmul(v3, p1["vec"], sg)
+                if w.predict_value(F(1), vec2)["kind"] in ("qty", "number",
+                                                           "qty-noref"):
+                    s3 = s
+                    break
+        e3, m3 = operand(rng, w, s3, k3)
+        if inner_m is not None:
+            # plain number op quantity/unit: the documented scaling
+            a, b = (inner_m, m3) if inner_first else (m3, inner_m)
+            if a[0] == "n" and op2 == "/":
+                f3, v3 = w.operand_den(m3)
+                if f3 == 0:
+                    continue
+                pred = w.predict_value(inner_m[1] / f3, vpow(v3, -1))
+            else:
+                pred = w.predict_mul(op2, a, b)
+        else:
+            f3, v3 = w.operand_den(m3)
+            if inner_first:
+                if op2 == "/" and f3 == 0:
+                    continue
+                val2 = p1["value"] * f3 if op2 == "*" else p1["value"] / f3
+                vec2 = vmul(p1["vec"], v3, 1 if op2 == "*" else -1)
+            else:
+                if op2 == "/" and p1["value"] == 0:
+                    continue
+                val2 = f3 * p1["value"] if op2 == "*" else f3 / p1["value"]
+                vec2 = vmul(v3, p1["vec"], 1 if op2 == "*" else -1)
+            pred = w.predict_value(val2, vec2)
+        if pred["kind"] == "zerodiv":
+            continue
+        d3 = describe_operand(m3)
+        if inner_first:
+            expr, desc = OP(op2, inner, e3), "%s %s (%s)" % (d1, op2, d3)
+        else:
+            expr, desc = OP(op2, e3, inner), "(%s) %s %s" % (d3, op2, d1)
+        kinds = "qq" if inner_m is None else \
+            ("n" + k3 if inner_first else k3 + "n")
+        return ({"k": key, "e": expr}, pred, desc, False, kinds, op2)
+    return None
 
 
 def world_case(chk, rng, wi, n_ops=40):
@@ -183,6 +290,11 @@ def world_case(chk, rng, wi, n_ops=40):
         o = rand_op(rng, wpart, "o%d" % j)
         ops.append(o + (wpart, "final"))
         steps.append(o[0])
+    for j in range(8):
+        o = rand_cascade(rng, wpart, "c%d" % j)
+        if o is not None:
+            ops.append(o + (wpart, "cascade"))
+            steps.append(o[0])
     # every type declared as a pure power T ** e: that very power (and the
     # power of opposite sign, mostly undefined) of a quantity and of a unit
     j = 0
@@ -230,6 +342,9 @@ def world_case(chk, rng, wi, n_ops=40):
                     pred["kind"] in ("qty", "number"):
                 chk.count("undefined before its type was declared, defined "
                           "after")
+            if phase == "cascade":
+                chk.count("cascades (a result as an operand)")
+                chk.count("cascade outcome|" + pred["kind"])
             judge_op(chk, wm, pred, obs.get(st["k"]), desc +
                      ("" if phase == "final" else " [%s]" % phase), [st], ul,
                      wid, kinds, op, plan=planj)
@@ -330,7 +445,9 @@ def run(chk, R, tier, seed):
               "kinds|qu", "kinds|uu", "kinds|qq", "kinds|nq", "kinds|nu",
               "outcome|qty-noref", "outcome|incomm", "worlds",
               "undefined before its type was declared, defined after",
-              "defining powers of pure-power types"):
+              "defining powers of pure-power types",
+              "cascades (a result as an operand)", "cascade outcome|qty",
+              "cascade outcome|number", "cascade outcome|undefined"):
         chk.require(c)
     cases = predefined_cases(chk, rng, tier)
     run_cases(chk, R, cases, per_program=250)
